@@ -238,6 +238,9 @@ def rule_to_v1(ctx):
     for n in own_nodes(f.node):
         if isinstance(n, ast.If) and isinstance(n.test, ast.Call) and norm(n.test.func) == "isinstance" \
                 and norm(n.test.args[0]) == f.params[0]:
+            par = getattr(n, "_parent", None)
+            if isinstance(par, ast.For) and isinstance(n.test.args[1], ast.Name) and any(isinstance(t, ast.Name) and t.id == n.test.args[1].id for t in ast.walk(par.target)):
+                continue  # the body of a table-driven dispatch loop: expanded below
             b = _resolve_class(prog, f, n.test.args[1])
             targets = []
             for r in ast.walk(n):
@@ -247,6 +250,28 @@ def rule_to_v1(ctx):
                     if any(r is x for s in n.body for x in ast.walk(s)):
                         targets.append((_resolve_class(prog, f, r.value.func.value), r))
             branches.append((b, targets, n))
+    # the same dispatch written as a table: `for kind, cls in ((A, B), ..): if isinstance(line, kind): return cls.from_instance(..)`
+    for lp in own_nodes(f.node):
+        if not (isinstance(lp, ast.For) and isinstance(lp.target, ast.Tuple) and len(lp.target.elts) == 2 and all(isinstance(e, ast.Name) for e in lp.target.elts)):
+            continue
+        kind_v, cls_v = (e.id for e in lp.target.elts)
+        tests = [i for i in lp.body if isinstance(i, ast.If) and isinstance(i.test, ast.Call) and norm(i.test.func) == "isinstance" and len(i.test.args) == 2
+                 and norm(i.test.args[0]) == f.params[0] and norm(i.test.args[1]) == kind_v]
+        if not tests or not any(isinstance(r, ast.Return) and isinstance(r.value, ast.Call) and norm(r.value.func) == f"{cls_v}.from_instance" for r in ast.walk(tests[0])):
+            continue
+        table = lp.iter
+        if isinstance(table, ast.Name):
+            ds = [a.value for a in own_nodes(f.node) if isinstance(a, ast.Assign) and len(a.targets) == 1 and norm(a.targets[0]) == table.id]
+            table = ds[0] if len(ds) == 1 else None
+        if not isinstance(table, (ast.Tuple, ast.List)):
+            raise AnalysisError("F6-to_v1", f.qname, "dispatch table of the loop over (kind, class) pairs not found")
+        for row in table.elts:
+            if not (isinstance(row, (ast.Tuple, ast.List)) and len(row.elts) == 2):
+                raise AnalysisError("F6-to_v1", f.qname, f"dispatch table row not a pair: {norm(row)[:40]}")
+            fake = ast.copy_location(ast.Return(value=ast.Call(func=ast.Attribute(value=row.elts[1], attr="from_instance", ctx=ast.Load()), args=[], keywords=[])), row)
+            fake_if = ast.copy_location(ast.If(test=ast.Call(func=ast.Name(id="isinstance", ctx=ast.Load()), args=[ast.Name(id=f.params[0], ctx=ast.Load()), row.elts[0]], keywords=[]),
+                                               body=[fake], orelse=[]), row)
+            branches.append((_resolve_class(prog, f, row.elts[0]), [(_resolve_class(prog, f, row.elts[1]), fake)], fake_if))
     ctx.floor("F6-to_v1", "isinstance branches", len(branches), 5)
     for b, targets, node in branches:
         ctx.require(b is not None, "F6-to_v1", f.qname, f"guard class not resolved: {norm(node.test)}")
